@@ -171,7 +171,9 @@ class Algorithms:
                         fc = len(alg_desc[i])
                         if fc > 0:
                             faults += pow(10, 2 - i) * fc
-                    if n not in alg_list:
+                    # The database lists GSS key exchanges under a wildcard ('gss-gex-sha1-*'); the advertised names carry a host-specific suffix instead.
+                    advertised = [a for a in alg_list if a == n or (alg_type == 'kex' and a.startswith('gss-') and ('%s-*' % a[0:a.rindex('-')]) == n)]
+                    if len(advertised) == 0:
                         # Don't recommend certificate or token types; these will only appear in the server's list if they are fully configured & functional on the server.  Also don't recommend 'ext-info-[cs]' nor 'kex-strict-[cs]-v00@openssh.com' key exchanges.
                         if faults > 0 or \
                            (alg_type == 'key' and (('-cert-' in n) or (n.startswith('sk-')))) or \
@@ -185,7 +187,8 @@ class Algorithms:
                         if n in ['diffie-hellman-group-exchange-sha256', 'rsa-sha2-256', 'rsa-sha2-512', 'rsa-sha2-256-cert-v01@openssh.com', 'rsa-sha2-512-cert-v01@openssh.com']:
                             rec[sshv][alg_type]['chg'][n] = faults
                         else:
-                            rec[sshv][alg_type]['del'][n] = faults
+                            for a in advertised:
+                                rec[sshv][alg_type]['del'][a] = faults
                 # If we are working with unknown software, drop all add recommendations, because we don't know if they're valid.
                 if unknown_software:
                     rec[sshv][alg_type]['add'] = {}
